@@ -388,6 +388,10 @@ func (c *c16Check) Run(seed, run uint64, rec []uint32, st Stats, only *Viol) []V
 			// have them); a line break inside a raw string is then two bytes a read can split
 			src, name = strings.ReplaceAll(src, "\n", "\r\n"), name+"+crlf"
 			s.ByKind["chunking-crlf"]++
+		} else if !strings.Contains(src, "\r") && !strings.Contains(src, "`") && t.Chance(1, 8) {
+			// ... or with lone CRs (not for texts with raw strings, where a line break is data)
+			src, name = strings.ReplaceAll(src, "\n", "\r"), name+"+cr"
+			s.ByKind["chunking-cr"]++
 		}
 		w, err := parse1(src)
 		if err != nil {
@@ -453,6 +457,15 @@ func (c *c16Check) Run(seed, run uint64, rec []uint32, st Stats, only *Viol) []V
 		s.Calibrated++
 		n := pickSize(t, 0)
 		pad := padding(t, n)
+		// the grammar takes LF, CRLF and a lone CR as line breaks alike
+		switch t.Pick(6, 1, 1) {
+		case 1:
+			pad = strings.ReplaceAll(pad, "\n", "\r\n")
+			s.ByKind["layout-crlf-pad"]++
+		case 2:
+			pad = strings.ReplaceAll(pad, "\n", "\r")
+			s.ByKind["layout-cr-pad"]++
+		}
 		variant, want = apply(pad), base
 		label = fmt.Sprintf("%s pad=%d at=%d", name, len(pad), pos)
 		s.BySize["pad"+sizeClass(len(pad))]++
